@@ -20,10 +20,11 @@ MODEL_MODULES = ["Ebv.Model.HashVars"]
 DRIVER = "Drivers/C09.lean"
 THEOREMS = [
     "Ebv.C09.members_disjoint", "Ebv.C09.member_py_prog_same_bytes", "Ebv.C09.py_prog_same_image",
-    "Ebv.C09.dict_images_disjoint", "Ebv.C09.struct_roundtrip",
-    "Ebv.C09.hashvar_cells_independent", "Ebv.C09.hashvar_default", "Ebv.C09.hashvar_py_to_prog", "Ebv.C09.hashvar_prog_to_py",
-    "Ebv.C09.refinement_partial", "Ebv.C09.refinement_pop_refuted", "Ebv.C09.iter_empty_refuted", "Ebv.C09.hashvar_fixed_refuted",
-    "Ebv.C09.lookup_absent_else",
+    "Ebv.C09.dict_images_disjoint", "Ebv.C09.struct_roundtrip", "Ebv.C09.encStruct_inj",
+    "Ebv.C09.key_ne", "Ebv.C09.hashvar_cells_independent", "Ebv.C09.hashvar_default",
+    "Ebv.C09.hashvar_py_to_prog", "Ebv.C09.hashvar_prog_to_py", "Ebv.C09.hashvar_fixed_refuted",
+    "Ebv.C09.refinement_partial", "Ebv.C09.iter_empty_refuted", "Ebv.C09.pop_deletes",
+    "Ebv.C09.lookup_absent_else", "Ebv.C09.lookup_present_found",
 ]
 TRUSTED = ["hand-written model Ebv.HashVars (Structure/Member layout, Dict stack offsets, both sides' member access, TheDict operations, hash "
            "variables), tied by exact correspondence of every observable (offsets, outcomes, values read on either side) with the real classes and "
@@ -532,7 +533,7 @@ def kernel_validation(ctx, cases):
 
 
 def run(ctx):
-    cases = [gen(ctx.rng) for _ in range(ctx.n(350, 12000))]
+    cases = [gen(ctx.rng) for _ in range(ctx.n(2500, 40000))]
     impl = []
     for c in cases:
         outs, imp = run_case(ctx, c)
